@@ -700,6 +700,9 @@ func (ec *EvalCtx) call(e *CExpr) Val {
 		t := ec.resolveType(e.Args[0].String())
 		vc.modules["iface"] = true
 		return TV{app("ptrof", SInt, argT(1)), t}
+	case "$parentOf":
+		vc.strLits["fun.parentOf"] = "(Int) Int"
+		return TV{app("parentOf", SInt, argT(0)), nil}
 	case "$typeof":
 		vc.modules["iface"] = true
 		return TV{app("typeof", SInt, argT(0)), it}
@@ -785,6 +788,7 @@ func (ec *EvalCtx) call(e *CExpr) Val {
 		sub := ec.child()
 		for i, f := range cp.Formals {
 			sub.bound[f.Name] = ec.eval(e.Args[i])
+			sub.tparams = tenvFromVal(sub.bound[f.Name], sub.tparams)
 		}
 		// predicates are closed: only formals and package-level names are visible
 		sub.names = map[string]Val{}
@@ -932,9 +936,11 @@ func (ec *EvalCtx) quant(e *CExpr) Val {
 	pat := ""
 	if len(e.Trig) > 0 {
 		var ps []string
+		st.inQuant++
 		for _, t := range e.Trig {
 			ps = append(ps, n.evalTerm(t).S)
 		}
+		st.inQuant--
 		pat = strings.Join(ps, " ")
 	} else {
 		pat = autoPattern(body.S, n, e.Binders)
@@ -1177,6 +1183,37 @@ func (vc *VC) staticTargetKeys(tgt string, origin *ssa.Function, c *ssa.CallComm
 	return nil, false
 }
 
+// tenvFromVal: the type arguments of a generic named type behind a value, by type-parameter name (so that a predicate written for
+// worker[T, JobType] can be applied where JobType is instantiated, e.g. in newWorker[T] whose worker is worker[T, iJob[T]]).
+func tenvFromVal(v Val, env map[string]types.Type) map[string]types.Type {
+	var t types.Type
+	switch x := v.(type) {
+	case TV:
+		t = x.Typ
+	case PtrV:
+		t = x.Typ
+	}
+	if t == nil {
+		return env
+	}
+	if d := derefType(t); d != nil {
+		t = d
+	}
+	n, ok := types.Unalias(t).(*types.Named)
+	if !ok || n.TypeArgs() == nil || n.TypeArgs().Len() == 0 {
+		return env
+	}
+	out := map[string]types.Type{}
+	for k, v := range env {
+		out[k] = v
+	}
+	tps := n.Origin().TypeParams()
+	for i := 0; i < tps.Len() && i < n.TypeArgs().Len(); i++ {
+		out[tps.At(i).Obj().Name()] = n.TypeArgs().At(i)
+	}
+	return out
+}
+
 type conjunct struct {
 	t    Term
 	text string
@@ -1196,6 +1233,7 @@ func (ec *EvalCtx) evalConjuncts(e *CExpr) []conjunct {
 			sub := ec.child()
 			for i, f := range cp.Formals {
 				sub.bound[f.Name] = ec.eval(e.Args[i])
+				sub.tparams = tenvFromVal(sub.bound[f.Name], sub.tparams)
 			}
 			sub.names = map[string]Val{}
 			if p := ec.st.vc.pkgByShort(cp.Pkg); p != nil {
